@@ -45,4 +45,8 @@ CORPUS = [
         'return torch.log(e * 4.0 / torch.pow((1.0 - B) + (1.0 + B) * e, 2))', benign=True),
     Mut('c09-benign-option-guard', BDSK, 'BDSKModel.from_json', "optionals['survival'] = data.get('survival', True)",
         "if 'survival' in data:\n    optionals['survival'] = data['survival']", benign=True),
+    Mut('c09-origin-updated-in-place', 'torchtree/evolution/bdsk.py', '', "                origin = origin + node_heights[..., -1:]", "                origin += node_heights[..., -1:]", expect=[('C09.P', 'PiecewiseConstantBirthDeath.log_prob::in-place-update-of-origin')], mode='text'),
+    Mut('c09-benign-origin-out-of-place', 'torchtree/evolution/bdsk.py', '', "                origin = origin + node_heights[..., -1:]", "                origin = node_heights[..., -1:] + origin", benign=True, mode='text'),
+    Mut('c09-rho-padded-after', 'torchtree/evolution/birth_death.py', '', "                    torch.zeros(\n                        self.rho.shape[:-1] + (lambda_.shape[-1] - self.rho.shape[-1],)\n                    ),\n                    self.rho.tensor,\n",
+        "                    self.rho.tensor,\n                    torch.zeros(\n                        self.rho.shape[:-1] + (lambda_.shape[-1] - self.rho.shape[-1],)\n                    ),\n", expect=[('C09.R', 'birth_death._call::rho-padded-with-leading-zeros')], mode='text'),
 ]
